@@ -28,13 +28,13 @@ P = {
  'C07': ('other', 'error discipline: raise inventory, option validation dataflow, nullness and bounds analysis',
          'Decides a discipline over all code reachable from the entry points: only SQLParseError raised, every option validated before use with total tests, possibly-None values tested before dereference, constant subscripts covered by guards or named invariants.',
          'Not decided: totality itself (run-time index values, memory).', '3 C07'),
- 'C08': ('other', 'stream-conservation path rules + guard tables + effect discipline of StripCommentsFilter',
-         'Decides which tokens each targeted filter may touch and how.',
+ 'C08': ('other', 'stream-conservation path rules + finite-domain interpretation of the case filters on every token type + effect discipline of StripCommentsFilter',
+         'Decides which tokens each targeted filter may touch and how: the decision converted/untouched is computed for every token type of the lexer table.',
          'Not decided: idempotence; case mappings that change length; fusion across group boundaries.', '3 C08'),
  'C09': ('other', 'stack-discipline rules on _group_matching + table agreement + operand-kind evaluation',
          'Decides the matcher shape, producibility of open/close tokens with exact types, pass order, and that joining passes cannot absorb a group\'s own delimiters.',
          'Not decided: equality with a reference matcher on arbitrary input.', '3 C09'),
- 'C10': ('other', 'structural preconditions: filter order, clause-keyword tables vs lexer output, two-sided spacing',
+ 'C10': ('other', 'structural preconditions: filter order, clause-keyword tables vs lexer output, two-sided spacing, fresh-object rule for inserted tokens',
          'Only the structural preconditions of the normal forms.',
          'Not decided: the normal forms and fixed points themselves (statements about output text).', '3 C10'),
  'C11': ('other', 'normal-form agreement between matcher literals and lexer output (case, inner whitespace), vocabulary shadowing',
@@ -49,22 +49,22 @@ P = {
  'C14': ('other', 'leftmost-first extent automata x specification DFA; dictionary/rule table agreement',
          'For every region kind and every body over the full alphabet the first matching rule is of the expected family and ends exactly at the terminator; dictionaries consulted in registration order case-insensitively; every dictionary word reachable as one token.',
          'Contexts limited to the delimiter classes listed; character classes sampled over BMP + astral representatives.', '3 C14'),
- 'C15': ('other', 'call-graph recursion containment under the single translating try',
-         'RecursionError cannot escape the entry points: every recursive routine they can reach runs inside FilterStack.run\'s try whose handler raises SQLParseError.',
+ 'C15': ('other', 'call-graph recursion containment under the single translating try; who-may-call rule on interpreter limits; non-recursive serialisation',
+         'RecursionError cannot escape the entry points: every recursive routine they can reach runs inside FilterStack.run\'s try whose handler raises SQLParseError; the package never changes the recursion limit; str()/flatten() of a returned statement do not recurse.',
          'Not decided: C-level stack exhaustion, MemoryError, behaviour at specific limits.', '3 C15'),
  'C16': ('proof', 'EDA (exponential ambiguity) test on the NFA self-product of every lexer regex',
          'No rule of SQL_REGEX and no look-around sub-pattern is exponentially ambiguous or has an epsilon cycle; each obligation is one product-automaton emptiness check, all discharged; historical ReDoS regexes are positive controls.',
          'Trusted: re._parser, bitset character classes. The timing budget sentence is not decided.', '3 C16'),
- 'C17': ('other', 'transfer-table extraction by path enumeration + protocol evaluation on keyword skeletons',
+ 'C17': ('other', 'transfer-table extraction by path enumeration + protocol evaluation on keyword skeletons + ordering rule on the driver loop',
          'The split-level protocol extracted from _change_splitlevel is balanced for each construct of the statement; closers the lexer emits agree with closers the table handles.',
          'Nesting checked to bounded depth; keywords used as identifiers not modelled.', '3 C17'),
  'C18': ('other', 'accessor shape rules + keyword shadowing table agreement (thin)',
          'Leading token found past whitespace and comments; answer is its normalised text; DML/DDL words reach get_type with that type.',
          'Not decided: CTE walk result on arbitrary statements.', '3 C18'),
- 'C19': ('other', 'who-may-decode ownership + parameter forwarding dataflow + CLI wiring',
-         'One decode point, encoding forwarded unchanged from every entry point, codecs as documented, CLI options validated and forwarded.',
+ 'C19': ('other', 'who-may-decode ownership + parameter forwarding dataflow + CLI wiring + finite-domain interpretation of the option functions',
+         'One decode point, encoding forwarded unchanged from every entry point, codecs as documented, CLI options validated and forwarded; for every flag combination the command line and format() build the same filter stack.',
          'Not decided: value equality of outputs; codec behaviour.', '3 C19'),
- 'C20': ('other', 'lock-discipline, read-only request path, reset completeness, global-write inventory',
+ 'C20': ('other', 'lock-discipline, read-only request path, reset completeness, global-write and closure-cell inventory',
          'Inventory of process-wide state and proof that the request path does not write it.',
          'Not decided: interleavings inside CPython; user code reconfiguring the lexer concurrently.', '3 C20'),
 }
@@ -96,6 +96,8 @@ m = {
   {'name': 'model/fold/tables', 'path': 'sa/model.py sa/fold.py sa/tables.py', 'serves_properties': sorted(P), 'kind_free_text': 'AST loader, constant folder, lexer/keyword tables recovered from source'},
   {'name': 'rx', 'path': 'sa/rx.py', 'serves_properties': ['C01', 'C05', 'C14', 'C16'], 'kind_free_text': 'regex automata: width, first sets, EDA self-product, leftmost-first extent automaton, DFA kit'},
   {'name': 'cg/fx', 'path': 'sa/cg.py sa/fx.py', 'serves_properties': ['C02', 'C03', 'C06', 'C07', 'C08', 'C15', 'C20'], 'kind_free_text': 'name-based call graph with repo idioms X1-X3; effect extraction'},
+  {'name': 'normalize', 'path': 'sa/normalize.py sa/baseline_funcs.json', 'serves_properties': sorted(P), 'kind_free_text': 'semantics-preserving normal form: new private helpers expanded at their call sites, new conditional expressions split, named guards substituted (identity on the pinned tree)'},
+  {'name': 'miniev/optmodel', 'path': 'sa/miniev.py sa/optmodel.py sa/kinds.py', 'serves_properties': ['C08', 'C09', 'C12', 'C13', 'C17', 'C18', 'C19'], 'kind_free_text': 'interpreter for small pure functions of the analysed source on finite enumerated domains (token kinds, option dictionaries, keyword skeletons)'},
   {'name': 'paths', 'path': 'sa/astutil.py', 'serves_properties': sorted(P), 'kind_free_text': 'structured path enumeration, dominating guard facts, linear forms, copy propagation'},
  ],
  'checks': checks,
